@@ -13,16 +13,24 @@ import sx
 from props import common
 
 
+_CHANGED_BY_DUMPS = []
+
+
 def snapshot(p):
-    """observable content: serialisation (or the error it raises) and deep canonical content"""
+    """observable content: serialisation (or the error it raises) and deep canonical content. The content is
+    taken BEFORE the program is serialised and again after: serialising is itself one of the read-only operations"""
     import blackbird
+    c0 = repr(strip_funcs(canon.canon_program(p)[1]))
     with core.quiet():
         try:
             d = blackbird.dumps(p)
         except Exception as e:  # noqa: BLE001
             d = "dumps raises " + type(e).__name__
-    c = canon.canon_program(p)[1]
-    return d, repr(strip_funcs(c))
+    c1 = repr(strip_funcs(canon.canon_program(p)[1]))
+    if c0 != c1 and not _CHANGED_BY_DUMPS:
+        _CHANGED_BY_DUMPS.append("serialising the program changed its content: before %s, after %s" % (
+            common.short(c0, 400), common.short(c1, 400)))
+    return d, c0
 
 
 def strip_funcs(c):
@@ -104,7 +112,10 @@ def run_sequence(text, info, seq_seed, length):
     if r[0] != "ok":
         return None
     p = r[1]
+    del _CHANGED_BY_DUMPS[:]
     live = [("template" if p.is_template() else "program", p, snapshot(p))]
+    if _CHANGED_BY_DUMPS:
+        return _CHANGED_BY_DUMPS[0]
     supplied = {}          # array values handed to the template: the same ndarray object may be passed again
     for step in range(length):
         k = rng.randrange(6)
@@ -157,6 +168,8 @@ def run_sequence(text, info, seq_seed, length):
                 return "step %d (%s) changed the %s of %s %d: before %r, after %r" % (
                     step, what, diff, kind, i, common.short(snap[0] if diff == "serialisation" else snap[1], 300),
                     common.short(now[0] if diff == "serialisation" else now[1], 300))
+        if _CHANGED_BY_DUMPS:
+            return "step %d (%s): %s" % (step, what, _CHANGED_BY_DUMPS[0])
     return None
 
 
@@ -277,6 +290,12 @@ def run(ctx):
             info = {"params": [], "array_params": {}}
             ctx.count("program")
         text = gen.render(script)
+        if i % 5 == 3:
+            # a complex array whose entries carry components far below machine precision (what exp(1j*pi) gives):
+            # nothing may "clean them up" in the program while it is serialised or converted
+            text += ("complex array Zz_ =\n    exp(1j*pi), 0.5+1e-17j\n    1e-300+2j, 3\nG(Zz_) | [0, 1]\n"
+                     "%s(0.7) | [1, 0]\n" % ctx.rng.choice(["CZgate", "CKgate", "CXgate", "BSgate", "S2gate", "MZgate"]))
+            ctx.count("array-with-sub-epsilon-components")
         seq_seed = ctx.rng.randrange(1 << 30)
         ctx.case((text, seq_seed), nontrivial=True)
         ctx.sample({"text": text, "sequence_seed": seq_seed, "length": ln})
